@@ -184,8 +184,10 @@ def size_sweeps(name, L):
             for cf in ('tscf', 'ntscf'):
                 room = 1500 - (4 if udp else 0) - (24 if cf == 'tscf' else 12) - 12 - 2 - 4 - 3
                 for n in range(0, room + 1):
-                    for value in ((1.5,) if n % 16 else (1.5, 3.4028234e38, -1e-38)):
-                        items.append(('%s path length %d value %g' % (cf, n, value), control(cf, vss_big(n, value), udp)))
+                    for value in ((1.5,) if n % 16 and n < room - 24 else (1.5, 3.4028234e38, -3.4028234e38, -1e-38)):
+                        f32 = struct.unpack('>f', struct.pack('>f', value))[0]
+                        line = 'VSS Path: %s, VSS Value: %f' % ((b'Vehicle.Cabin.Seat.Row1.Pos1.' * 60)[:n].decode(), f32)
+                        items.append(('%s path length %d value %g' % (cf, n, value), control(cf, vss_big(n, value), udp), None, line))
         elif name == 'hello-world-listener':
             for cf in ('tscf', 'ntscf'):
                 room = 1500 - (4 if udp else 0) - (24 if cf == 'tscf' else 12) - 8 - 4
@@ -218,7 +220,7 @@ def size_sweeps(name, L):
             if len(d) > 1500:
                 continue
             sid = '%s|%s|sweep|%s' % (name, mlabel, desc.replace(' ', '_'))
-            out.append((sid, args, presets, ['D' + d.hex()], mlabel, desc, it[2] if len(it) > 2 else None))
+            out.append((sid, args, presets, ['D' + d.hex()], mlabel, desc, it[2] if len(it) > 2 else None, it[3] if len(it) > 3 else None))
     return out
 
 
@@ -303,6 +305,62 @@ def deviations(t):
     out.append(('oversize1600', 'oversize', lambda d: d + b'\x41' * max(0, 1600 - len(d))))
     out.append(("pad'A'to1500", 'oversize', lambda d: d + b'A' * max(0, 1500 - len(d))))
     return out
+
+
+def can_candidates(d, udp, fd):
+    """every CAN frame a datagram can be said to carry, by a reading of the wire format that is independent of the
+    listener's acceptance policy: (identifier, data) of each full CAN message that lies inside the announced ACF data and
+    inside the datagram and whose payload fits a frame. A frame the listener writes must be one of these, in order."""
+    off = 4 if udp else 0
+    out = []
+    if len(d) < off + 4:
+        return out
+    st = d[off]
+    if st == 0x05:
+        hl = 24
+        if len(d) < off + hl:
+            return out
+        ann = e4.getf(d, 'Tscf', 'stream_data_length', off)
+    elif st == 0x82:
+        hl = 12
+        if len(d) < off + hl:
+            return out
+        ann = e4.getf(d, 'Ntscf', 'ntscf_data_length', off)
+    else:
+        return out
+    p, end = off + hl, min(len(d), off + hl + ann)
+    while p + 16 <= end:
+        typ, ln = d[p] >> 1, (((d[p] & 1) << 8) | d[p + 1]) * 4
+        if typ != 1 or ln < 16 or p + ln > end:
+            break
+        pad = (d[p + 2] >> 6) & 3
+        pl = ln - 16 - pad
+        if 0 <= pl <= (64 if fd else 8):
+            out.append((int.from_bytes(d[p + 12:p + 16], 'big') & 0x1FFFFFFF, bytes(d[p + 16:p + 16 + pl])))
+        p += ln
+    return out
+
+
+def frames_from_nowhere(evs, eff, udp, fd):
+    """-> description of the first CAN frame written that no message of its datagram describes, or None"""
+    dgs = [bytes.fromhex(e[1:]) for e in evs if e[:1] in 'DEB' and not e.startswith('Dx')]
+    if len(dgs) != len(evs):
+        return None
+    segs, _ = effect_tokens(eff)
+    for dg, seg in zip(dgs, segs):
+        cand = can_candidates(dg, udp, fd)
+        k = 0
+        for tok in seg:
+            if not tok.startswith('CAN '):
+                continue
+            raw = bytes.fromhex(tok[4:])
+            fr = (int.from_bytes(raw[:4], 'little') & 0x1FFFFFFF, raw[8:8 + raw[4]])
+            while k < len(cand) and cand[k] != fr:
+                k += 1
+            if k == len(cand):
+                return 'frame id=0x%x len=%d data=%s; the datagram carries %s' % (fr[0], len(fr[1]), fr[1].hex(), [(hex(c[0]), len(c[1])) for c in cand][:6])
+            k += 1
+    return None
 
 
 def classify2(st, eff, rep):
@@ -437,6 +495,7 @@ def run(prop, tier):
                         sid = '%s|%s|%s|%d|%s' % (name, mlabel, t.label, ci, seqkind)
                         scripts.append((sid, args, presets, evs))
                         meta[sid] = (name, mlabel, t.label, dn, seqkind, dc)
+        scripts_by_id = {x[0]: x for x in scripts}
         primed_scripts = [x for x in scripts if x[0].endswith(('|primed', '|primedZ'))]
         scripts = [x for x in scripts if not x[0].endswith(('|primed', '|primedZ'))]
         results = e4.run_batch(exe, scripts)
@@ -503,6 +562,17 @@ def run(prop, tier):
                 masked += 1          # the listener already fails on well-formed traffic: nothing behind that point is explored
                 continue
             cls = classify2(st, eff, rep)
+            if not cls and name == 'acf-can-listener':
+                mp_ = [mp for ml, a_, p_, mp in L['modes'] if ml == mlabel][0]
+                ffn = frames_from_nowhere([s_ for s_ in scripts_by_id[sid][3]], eff, mp_[0], mp_[1])
+                if ffn:
+                    key = '%s: writes a CAN frame that no message of the datagram describes' % name
+                    e = res.viol.setdefault(('C18', key), {'count': 0, 'case': sid, 'detail': '', 'tag': '', 'modes': set(), 'devs': set()})
+                    e['count'] += 1
+                    e['modes'].add(mlabel); e['devs'].add(dc)
+                    if not e['detail']:
+                        e['detail'] = 'first: mode %s, template %s, deviation %s (%s): %s' % (mlabel, tl, dn, kind, ffn)
+                    continue
             if cls:
                 key = '%s: %s' % (name, cls)
                 e = res.viol.setdefault(('C18', key), {'count': 0, 'case': sid, 'detail': '', 'tag': '', 'modes': set(), 'devs': set()})
@@ -573,9 +643,19 @@ def run(prop, tier):
             for variant, ex in (('pattern', exe),) + ((('none', exe_plain),) if exe_plain else ()):
                 rs_ = e4.run_batch(ex, [x[:4] for x in sw])
                 nseq += len(sw)
-                for sid, args_, presets_, evs, mlabel, desc, want in sw:
+                for sid, args_, presets_, evs, mlabel, desc, want, wline in sw:
                     st, eff, rep = rs_[sid]
                     cls = classify2(st, eff, rep)
+                    if not cls and wline is not None:
+                        # reference for what the listener prints for a well-formed message: the path and the value, one line
+                        mo = re.search(r'STDOUT\[(.*)\]$', eff, re.S)
+                        got_line = (mo.group(1) if mo else '').strip()
+                        if got_line != wline.strip():
+                            key = '%s: well-formed datagram of a particular size: printed line differs from the message (path and value)' % name
+                            e = res.viol.setdefault(('C18', key), {'count': 0, 'case': sid, 'detail': 'first: mode %s, %s (%s build): printed %r expected %r' % (mlabel, desc, variant, got_line[-70:], wline[-70:]), 'tag': '', 'modes': set(), 'devs': set()})
+                            e['count'] += 1
+                            e['modes'].add(mlabel); e['devs'].add('size-sweep')
+                            continue
                     if cls:
                         key = '%s: well-formed datagram of a particular size: %s' % (name, cls)
                         e = res.viol.setdefault(('C18', key), {'count': 0, 'case': sid, 'detail': 'first: mode %s, %s (%s build): %s' % (mlabel, desc, variant, rep[:300] or st), 'tag': '', 'modes': set(), 'devs': set()})
